@@ -21,7 +21,8 @@ BASES = {"tiny": b"", "small": b"\x00\x01" * 3, "ffff": b"\xff\xff" * 40, "mixed
 def describe(tier):
     q = tier == "quick"
     return {
-        "rule": "F (plus the same sweep on frames carrying Ethernet padding or a 4-byte FCS trailer, and on IPv6 packets with extension headers): for ipver x proto x parity x " + ("2" if q else "3") + " base payloads, a 16-bit payload word takes all 65536 values; "
+        "rule": "R: every data segment of a TLS 1.2/IPv4 and a TLS 1.3/IPv6 connection damaged (payload byte / checksum field) and followed 1 or 3 packets later by its intact "
+                "retransmission - export(-c) must equal export(no -c) of the capture without the damaged packet; F (plus the same sweep on frames carrying Ethernet padding or a 4-byte FCS trailer, on IPv4 packets with 4 and 40 bytes of header options, and on IPv6 packets with extension headers): for ipver x proto x parity x " + ("2" if q else "3") + " base payloads, a 16-bit payload word takes all 65536 values; "
                 "each packet is evaluated with its correct checksum (sender rule incl. UDP 0->0xffff) and with " + ("2" if q else "4") +
                 " wrong values that fail the receiver test; P: all 256 subsets of 8 designated packets corrupted (payload byte "
                 "flipped without fixing the checksum / checksum field changed). non-trivial: F - a packet whose folded sum needed "
@@ -48,6 +49,10 @@ def cases(tier, seed):
                 for b in bases:
                     for chunk in range(8):
                         yield {"layer": "F", "v6": v6, "proto": proto, "odd": odd, "base": b, "chunk": chunk, "wrong": 2 if q else 4}
+                if not v6:
+                    # IPv4 header options (4 bytes: NOP NOP NOP EOL; 40 bytes: the maximum) in front of the transport header
+                    for oi, chunk in ((1, 0), (2, 4)) if q else [(oi, c) for oi in (1, 2) for c in range(8)]:
+                        yield {"layer": "F", "v6": v6, "proto": proto, "odd": odd, "base": "small", "chunk": chunk, "wrong": 1, "v4_opts": oi}
                 if v6:
                     # IPv6 extension headers (hop-by-hop + destination options) in front of the transport header
                     for chunk in (range(0, 8, 4) if q else range(8)):
@@ -60,13 +65,83 @@ def cases(tier, seed):
                                    "trailer": tr}
     for part in range(16):
         yield {"layer": "P", "part": part, "seed": seed}
+    for fl in (0, 1):
+        yield {"layer": "R", "flow": fl, "seed": seed}
 
 
 def run_case(case):
     harness.load()
     if case["layer"] == "F":
         return run_f(case)
+    if case["layer"] == "R":
+        return run_r(case)
     return run_p(case)
+
+
+V4_OPTS = {0: b"", 1: b"\x01\x01\x01\x00", 2: b"\x01" * 39 + b"\x00"}
+
+
+def run_r(case):
+    """a damaged TCP segment followed by its intact retransmission: with -c the damaged one is ignored and the
+    retransmission takes its place - the export equals that of the capture from which the damaged packet was removed"""
+    seed = case["seed"]
+    if case["flow"] == 0:
+        f = scen.tls_flow({"version": tls.TLS12, "suite": 0xC02F, "history": [("c", 30), ("s", 700), ("c", 5), ("s", 9)]}, seed, 0, mss=300)
+    else:
+        f = scen.tls_flow({"version": tls.TLS13, "suite": 0x1301, "history": [("c", 10), ("s", 500), ("c", 77)]}, seed, 2, v6=True, mss=200)
+    by = scen.quic_flow({"suite": 0x1301}, seed, 1)
+    ends = {f.id: f.ends, by.id: by.ends}
+    base = scen.round_robin([f.pkts, by.pkts])
+    keylog = f.keylog() + by.keylog()
+    data = [i for i, p in enumerate(base) if p.conn == f.id and p.payload]
+    fails, nontriv, outcomes = [], [], set()
+    n = 0
+    sample = None
+    for k, i in enumerate(data):
+        for delay in (1, 3):
+            for how in ("payload", "field"):
+                pk = [p.copy() for p in base]
+                pk.insert(min(len(pk), i + delay), base[i].copy())       # the intact retransmission
+                cap.stamp(pk, ends)
+                filtered = [p.copy() for j, p in enumerate(pk) if j != i]
+                old = _transport_sum(pk[i].frame, "tcp")
+                if how == "payload":
+                    pk[i].payload = bytes([pk[i].payload[0] ^ 0x40]) + pk[i].payload[1:]
+                    pk[i].bad_sum = old
+                else:
+                    pk[i].bad_sum = (old + 0x0101) & 0xFFFF
+                cap.render(pk[i], ends)
+                assert not net.transport_ok(pk[i].frame)
+                for p in filtered:
+                    cap.render(p, ends)
+                r1 = scen.run(pk, keylog, ["-c"])
+                r2 = scen.run(filtered, keylog, [])
+                n += 2
+                sig = {"layer": "R", "flow": case["flow"], "segment": k, "delay": delay, "damage": how}
+                if not r1.ok or not r2.ok:
+                    bad_r = r1 if not r1.ok else r2
+                    fails.append({"kind": "run_failed", "sig": sig, "detail": bad_r.status + bad_r.detail[-400:]})
+                    continue
+                if r1.out != r2.out:
+                    fails.append({"kind": "export_differs_from_filtered", "sig": sig,
+                                  "detail": f"-c on the capture with a damaged segment and its intact retransmission: {len(r1.out or b'')} bytes; "
+                                            f"capture without the damaged segment, no -c: {len(r2.out or b'')} bytes"})
+                    continue
+                try:
+                    an = scen.analyse(r1)
+                    c = scen.tcp_streams(an, f.ends)
+                except scen.ExportError as e:
+                    fails.append({"kind": e.kind, "sig": sig, "detail": e.detail})
+                    continue
+                if c is not None and c["s2c"] == f.conn.plain["s"] and c["c2s"] == f.conn.plain["c"]:
+                    nontriv.append(engine.jhash(sig))
+                outcomes.add(scen.digest(r1.out))
+                if sample is None:
+                    sample = {"layer": "R", "damaged": repr(pk[i]), "output_packets": len(an["packets"])}
+    r = {"n": n, "fails": fails, "nontrivial": nontriv, "outcomes": sorted(outcomes)}
+    if sample:
+        r["sample"] = sample
+    return r
 
 
 def run_f(case):
@@ -88,7 +163,8 @@ def run_f(case):
     lo = case["chunk"] * 8192
     for w in range(lo, lo + 8192):
         payload = struct.pack("!H", w) + base + (b"\x5a" if odd else b"")
-        frame = net.build_frame(src, dst, proto, payload, seq=0x01020304, ack=0x0a0b0c0d, v6_ext=bool(case.get("v6_ext")))
+        frame = net.build_frame(src, dst, proto, payload, seq=0x01020304, ack=0x0a0b0c0d, v6_ext=bool(case.get("v6_ext")),
+                                v4_opts=V4_OPTS[case.get("v4_opts", 0)])
         # link-layer trailer: Ethernet padding of short frames / a captured frame check sequence (not part of the IP packet)
         trailer = case.get("trailer")
         if trailer == "pad":
@@ -105,7 +181,7 @@ def run_f(case):
         for wv in ((correct ^ 1), (correct ^ 0x8000), (correct + 1) & 0xFFFF, (~correct) & 0xFFFF)[:case["wrong"]]:
             if proto == "udp" and wv == 0:
                 continue
-            fr2 = net.build_frame(src, dst, proto, payload, seq=0x01020304, ack=0x0a0b0c0d, transport_sum=wv)
+            fr2 = net.build_frame(src, dst, proto, payload, seq=0x01020304, ack=0x0a0b0c0d, transport_sum=wv)   # (the plain variant decides)
             if net.transport_ok(fr2):
                 continue            # alternative representation of zero: not a wrong checksum
             variants.append((wv, False))
